@@ -3,6 +3,7 @@ package c05
 import (
 	"fmt"
 	"math/rand"
+	"os"
 	"path/filepath"
 	"sort"
 	"strings"
@@ -46,6 +47,7 @@ func buildInputs(ctx *core.Ctx, paths []ModelPath, withRest bool) ([]Input, map[
 	add(AttrHazards())
 	add(ValueKindHazards())
 	add(LongTailInputs())
+	add(LiteralHazards())
 	// (c) prefixes and (d) token mutations of the corpus and of generated files
 	files, err := CorpusFiles()
 	if err != nil {
@@ -515,8 +517,25 @@ func Run(ctx *core.Ctx) {
 		RunReplay(ctx)
 		return
 	}
+	if os.Getenv("VERIF_DEV_ONLY") == "scaling" {
+		// development aid: only the scaling check; never a clean exit
+		ctx.ToolError("only the scaling check was run (VERIF_DEV_ONLY)")
+		ctx.Extra["scaling"] = ScalingCheck(ctx)
+		return
+	}
 	t0 := time.Now()
 	phase := map[string]float64{}
+	// the scaling law of the "proportional" clause (CPU time of worker processes)
+	var sw sync.WaitGroup
+	sw.Add(1)
+	var scaleSecs float64
+	var scaleRes []ScaleResult
+	go func() {
+		defer sw.Done()
+		ts := time.Now()
+		scaleRes = ScalingCheck(ctx)
+		scaleSecs = time.Since(ts).Seconds()
+	}()
 	models := StartModels(ctx, "paths,lexer,parse-c05")
 	// batch 1: the families that do not depend on TLC output run while TLC works
 	inputs, counts, err := BuildInputs(ctx, nil)
@@ -616,6 +635,9 @@ func Run(ctx *core.Ctx) {
 		ctx.ToolError("%d inputs were lost by their worker (first: %s)", len(s.Lost), results[s.Lost[0]].Err)
 	}
 	tw.Wait()
+	sw.Wait()
+	phase["scaling_s"] = scaleSecs
+	ctx.Extra["scaling"] = scaleRes
 	phase["trace_validation_s"] = traceSecs
 	if len(traceRej) > 0 {
 		// order anomalies are drift of the implementation-shaped protocol;
